@@ -36,7 +36,8 @@ THEOREMS = ['split_render', 'split_render_lazy', 'split_first', 'split_concat', 
             'wrapper_table_matches_source', 'int_rule_matches_source', 'probes_match_model', 'plain_int_rule',
             'prefix_model_f28_infers_i', 'prefix_model_dict_value_from_last',
             'prefix_model_subclass_under_base_type', 'prefix_model_invalid_signatures',
-            'variant_roundtrip_partial', 'prefix_inferred_types_do_not_fit']
+            'variant_roundtrip_partial', 'variant_roundtrip', 'variant_roundtrip_conforming',
+            'prefix_inferred_types_do_not_fit']
 TRUSTED_BASE = [
     'Python semantics mirrored by hand in Sig/Split.lean and Wire/Infer.lean (generators and PEP 479, slices, '
     'isinstance/type on the builtin classes, dict iteration order, loop variables after a for loop) - validated by '
